@@ -61,6 +61,8 @@ def items(tier, seed):
         out.append({'h': 'atoms', 'first': first, 'n': n, 'cost': 20})
     for name in ROT:
         out.append({'h': 'rot', 'name': name, 'cost': 3})
+    for name in ROTML:
+        out.append({'h': 'rotml', 'name': name})
     out.append({'h': 'body', 'delim': 0, 'L': 1, 'twin': True})
     out.append({'h': 'rot', 'name': 'row9', 'twin': True})
     return out
@@ -173,6 +175,51 @@ ROT = {
 }
 
 
+ROTML = {
+    # name: (document, main language option): formulas per language get successive placeholders
+    'heading_foreign': ('\\usepackage[english]{babel}\n\\foreignlanguage{german}{Eins $a$ zwei} A $b$ B\n'
+                        '\\section{T \\foreignlanguage{german}{drei $c$ vier} $d$}\nC '
+                        '\\foreignlanguage{german}{fünf $e$ sechs} $f$ D', 'en-GB'),
+    'select_back': ('\\usepackage[english]{babel}\nA $a$ \\selectlanguage{russian} Ж $b$ ж $c$\n'
+                    '\\selectlanguage{english} B $d$ \\subsection*{H \\foreignlanguage{russian}{ж $e$}} $f$',
+                    'en-GB'),
+    'footnote_foreign': ('\\usepackage[english]{babel}\nA $a$\\footnote{F \\foreignlanguage{german}{eins $b$} $c$} '
+                         '\\foreignlanguage{german}{zwei $d$} $e$', 'en-GB'),
+    'phantom': ('A $a$ \\phantom{$b$} \\hspace{$c$} $d$ \\vphantom{$e$} $f$', 'en-GB'),
+}
+
+
+def rotml_check(name, twin=False):
+    import re
+    doc, main = ROTML[name]
+    res, diags, err = yal.run_native(doc, yal.mkopts({'lang': main, 'pack': '*'}), True)
+    from vf.offrun import flatten
+    found = []
+    for lab, plain, cm in flatten(res):
+        lang = lab.split('#')[0][:2]
+        coll = INLINE.get(lang, INLINE['en'])
+        for m in re.finditer('|'.join(re.escape(x) for x in coll), plain):
+            found.append((cm[m.start()], lang, m.group(0)))
+    found.sort()
+    seen = {}
+    for pos, lang, ph in found:
+        coll = INLINE.get(lang, INLINE['en'])
+        key = 'cyr' if lang == 'ru' else 'lat'      # en and de share one collection object? no:
+        key = lang
+        i = seen.get(key, 0)
+        want = coll[(i + 1) % len(coll)]
+        if twin:
+            want = coll[i % len(coll)]
+        if ph != want:
+            return 'C10 %r: formula at offset %d (%s) is rendered as %s, the %d-th formula of ' \
+                   'that language should get %s; all: %r' % (doc, pos, lang, ph, i + 1, want, found)
+        seen[key] = i + 1
+    nform = doc.count('$') // 2
+    if len(found) > nform:
+        return 'C10 %r: %d placeholders for %d formulas' % (doc, len(found), nform)
+    return None
+
+
 def build_rot(item):
     spec, opts, ml = ROT[item['name']]
     node = family.build(spec)
@@ -196,10 +243,16 @@ def build(item):
 
 
 def run_item(item):
+    if item['h'] == 'rotml':
+        r = rotml_check(item['name'], bool(item.get('twin')))
+        return harness.smt_result(1, 0 if r else 1, [{'witness': {}, 'msg': r}] if r else [], 0, 0.0,
+                                  [ROTML[item['name']][0]], item)
     prop, concrete = build(item)
     return harness.run(prop, concrete, item, budget_s=harness.budget(item, 200), per_path_s=30)
 
 
 def replay(rep):
+    if rep['item']['h'] == 'rotml':
+        return rotml_check(rep['item']['name'])
     prop, concrete = build(rep['item'])
     return concrete(rep['witness'])
